@@ -11,5 +11,7 @@ Definition run_case (l : list Z) : list Z :=
   | 3 :: args => run_validate args
   | 4 :: args => run_stream args
   | 5 :: args => run_hb args
+  | 6 :: args => run_decode_dgram args
+  | 7 :: args => run_search args
   | _ => [-1]
   end.
